@@ -135,7 +135,7 @@ def _work(args):
       if r.outcome is not None:
         agg["outcomes"][r.outcome] += 1
       if r.extra:
-        agg["extra"].update(r.extra)
+        merge_extra(agg["extra"], r.extra)
       if r.succ:
         for k, h in r.succ.items():
           agg["succ"].setdefault(k, h)
@@ -144,6 +144,15 @@ def _work(args):
   if len(agg["outcomes"]) > 5000:
     agg["outcomes"] = collections.Counter(dict(agg["outcomes"].most_common(5000)))
   return kname, agg
+
+
+def merge_extra(total, extra):
+  """Named counters are summed, except those called max_* which keep the maximum."""
+  for k, v in extra.items():
+    if k.startswith("max_"):
+      total[k] = max(total.get(k, 0), v)
+    else:
+      total[k] += v
 
 
 def chunks_of(iterable, n):
@@ -219,7 +228,7 @@ class Run(object):
       st["evaluations"] += agg["n"]
       st["nontrivial"] |= agg["nontrivial"]
       st["outcomes"].update(agg["outcomes"])
-      st["extra"].update(agg["extra"])
+      merge_extra(st["extra"], agg["extra"])
       for k, h in agg["succ"].items():
         st["succ"].setdefault(k, h)
       if agg["first"] is not None and nsamp < 3:
